@@ -145,7 +145,7 @@ func TestC17(t *testing.T) {
 	cfg := evd.Env()
 	col := evd.New("C17", cfg)
 	defer col.Flush()
-	n := cfg.N(200, 6000)
+	n := cfg.N(200, 40000)
 	var creates, updates, fieldsChecked int64
 	paths := []string{"labels", "expiration_policy", "message_retention_duration", "enable_message_ordering", "retry_policy", "push_config", "filter", "dead_letter_policy"}
 	for i := 0; i < n; i++ {
